@@ -35,7 +35,7 @@ class MachineryFault(Exception):
     pass
 
 
-def sh(cmd, timeout=None, cwd=None, env=None, mem_gb=None, stdin=None):
+def sh(cmd, timeout=None, cwd=None, env=None, mem_gb=None, stdin=None, register=None):
     def limits():
         if mem_gb:
             b = int(mem_gb * (1 << 30))
@@ -44,6 +44,7 @@ def sh(cmd, timeout=None, cwd=None, env=None, mem_gb=None, stdin=None):
     t0 = time.time()
     p = subprocess.Popen(cmd, stdout=subprocess.PIPE, stderr=subprocess.PIPE, cwd=cwd, env=env,
                          preexec_fn=limits, stdin=subprocess.DEVNULL if stdin is None else subprocess.PIPE)
+    if register: register(p)
     try:
         out, err = p.communicate(input=stdin, timeout=timeout)
         to = False
@@ -111,7 +112,7 @@ def demangle(names):
 PROP_RE = re.compile(r'^\[(?P<name>[^\]]+)\] (?P<desc>.*): (?P<res>SUCCESS|FAILURE|UNKNOWN|ERROR)$', re.M)
 
 
-def run_cbmc(cfiles, unwind, timeout, mem_gb=12, checks=True, trace_property=None, extra=(), wd=None, defs=None):
+def run_cbmc(cfiles, unwind, timeout, mem_gb=12, checks=True, trace_property=None, extra=(), wd=None, defs=None, _register=None):
     cmd = ['cbmc'] + list(cfiles) + ['-I' + RT, '--unwind', str(unwind), '--unwinding-assertions',
                                     '--no-malloc-may-fail', '--drop-unused-functions', '--object-bits', '12', '--slice-formula', '--unwindset', 'vf_streq.0:50']
     if not checks:
@@ -122,9 +123,39 @@ def run_cbmc(cfiles, unwind, timeout, mem_gb=12, checks=True, trace_property=Non
     if trace_property:
         cmd += ['--trace', '--property', trace_property]
     cmd += list(extra)
-    r = sh(cmd, timeout=timeout, mem_gb=mem_gb, cwd=wd)
+    r = sh(cmd, timeout=timeout, mem_gb=mem_gb, cwd=wd, register=_register)
     r['cmd'] = ' '.join(cmd)
     return r
+
+
+def run_cbmc_portfolio(cfiles, unwind, timeout, variants=((), ('--sat-solver', 'cadical')), **kw):
+    """the same query under several SAT back ends in parallel; the first back end that returns a verdict wins
+    (the formula is identical, only the decision procedure differs), the others are killed"""
+    import threading
+    results = [None] * len(variants)
+    procs = {}
+    done = threading.Event()
+    extra0 = tuple(kw.pop('extra', ()))
+
+    def work(i, v):
+        r = run_cbmc(cfiles, unwind, timeout, extra=extra0 + tuple(v), _register=lambda p: procs.__setitem__(i, p), **kw)
+        r['backend'] = ' '.join(v) or 'default (minisat2)'
+        results[i] = r
+        if not r['timeout'] and ('VERIFICATION SUCCESSFUL' in r['out'] or 'VERIFICATION FAILED' in r['out']):
+            done.set()
+    ts = [threading.Thread(target=work, args=(i, v)) for i, v in enumerate(variants)]
+    for t in ts: t.start()
+    while any(t.is_alive() for t in ts) and not done.is_set():
+        done.wait(0.5)
+    for i, p_ in list(procs.items()):
+        if p_.poll() is None:
+            try: os.killpg(p_.pid, 9)
+            except Exception: pass
+    for t in ts: t.join()
+    good = [r for r in results if r and not r['timeout'] and ('VERIFICATION SUCCESSFUL' in r['out'] or 'VERIFICATION FAILED' in r['out'])]
+    if good:
+        return min(good, key=lambda r: r['wall'])
+    return results[0]
 
 
 def parse_cbmc(r):
